@@ -62,6 +62,8 @@ func TestCheck(t *testing.T) {
 			runECIES(run)
 		case "peer":
 			runPeerWedge(run)
+		case "basemsg":
+			runBaseMsgs(run)
 		default:
 			ev.Broken("replay file without a known part")
 		}
@@ -126,6 +128,7 @@ func TestCheck(t *testing.T) {
 	part("queue", func() { runQueue(run) })
 	part("ecies", func() { runECIES(run) })
 	part("peer", func() { runPeerWedge(run) })
+	part("basemsg", func() { runBaseMsgs(run) })
 	wg.Wait()
 	if stopProf != nil {
 		stopProf()
